@@ -287,3 +287,53 @@ def h6_wavelength(ctx):
         else:
             ctx.oblige(f'record_{i}', (not ctx.finite(qa)) and (not ctx.finite(qb)))
     ctx.observe('w1', w1)
+
+
+# ------------------------------------------------------------------------------------------------ tilt about the centre of curvature
+@harness('C07', 'H7_tilt_about_centre', funcs=FUNCS, max_paths=60, cases=lambda tier: [dict(axis=a, kind=k) for a in ('x', 'y') for k in ('sphere', 'mirror')],
+         bounds='spherical surface (refracting 1 -> 1.5 / reflecting, symbolic R), tilted by the Pythagorean angle atan2(7, 24) = 0.2838 rad about the x or the y '
+                'axis THROUGH ITS CENTRE OF CURVATURE (vertex decentred accordingly, frame computed with the library\'s own globalize); ray through a symbolic '
+                'point of the sag sheet with the rational unit direction (2,-3,6)/7 and symbolic start distance',
+         doc='tilting a spherical surface about its own centre of curvature changes nothing: intersection point, direction after the surface, optical path '
+             'and intensity in global coordinates are the same as for the untilted surface')
+def h7_tilt(ctx, axis, kind):
+    from optiland.coordinate_system import CoordinateSystem
+    from optiland.geometries import StandardGeometry
+    from optiland.surfaces.standard_surface import Surface
+    from optiland.rays import RealRays
+    from checks.C06 import launch
+    theta = math.atan2(7.0, 24.0)
+    if ctx.sym:
+        from symopt.sv import register_exact_angle
+        register_exact_angle(theta, '24/25', '7/25')
+    R = ctx.real('R', ne=0)
+    P0, dirn, P, tau = ray_to_surface_point(ctx, R, 0.0)
+    n1, n2 = ctx.const(1.0), ctx.const(1.5)
+    # vertex of the tilted surface: the centre of curvature C = (0, 0, R) keeps its place
+    rot = CoordinateSystem(**{('rx' if axis == 'x' else 'ry'): theta})
+    c_loc = launch(ctx, (0.0, 0.0, R), (0.0, 0.0, 1.0))
+    rot.globalize(c_loc)
+    origin = (0.0 - ctx.val(c_loc.x), 0.0 - ctx.val(c_loc.y), R - ctx.val(c_loc.z))
+    out = []
+    for tilted in (False, True):
+        cs = CoordinateSystem(x=origin[0], y=origin[1], z=origin[2], **{('rx' if axis == 'x' else 'ry'): theta}) if tilted else CoordinateSystem()
+        sf = Surface(StandardGeometry(cs, R, 0.0), ideal(n1), ideal(n1 if kind == 'mirror' else n2), is_reflective=(kind == 'mirror'))
+        rays = launch(ctx, P0, dirn)
+        sf._trace_real(rays)
+        out.append([ctx.val(q) for q in (rays.x, rays.y, rays.z, rays.L, rays.M, rays.N, rays.opd, rays.i)])
+        if not tilted:
+            if not all(ctx.finite(q) for q in out[0]):
+                return
+            ctx.assume(ctx.And(ctx.eq(out[0][2], P[2]), ctx.eq(out[0][0], P[0])))      # the point aimed at is the one the library takes
+            # ... and it also lies on the sag sheet of the TILTED cap (the near hemisphere seen from the tilted vertex): the sphere is
+            # mapped onto itself but the cap moves, a ray near its edge can miss it
+            probe = launch(ctx, P, (0.0, 0.0, 1.0))
+            CoordinateSystem(x=origin[0], y=origin[1], z=origin[2], **{('rx' if axis == 'x' else 'ry'): theta}).localize(probe)
+            ctx.assume(ctx.val(probe.z) * R < R * R)
+    a, b = out
+    fin_b = all(ctx.finite(q) for q in b)
+    ctx.oblige('not_lost_when_tilted', fin_b)
+    if fin_b:
+        for nm, qa, qb in zip(('x', 'y', 'z', 'L', 'M', 'N', 'opd', 'intensity'), a, b):
+            ctx.oblige(f'{nm}_same', ctx.eq(qb, qa))
+    ctx.observe('tau', tau)
